@@ -410,6 +410,11 @@ impl VirtualSystem {
     ) -> Result<(Rc<RefCell<Inode>>, bool, bool)> {
         const _POSIX_SYMLOOP_MAX: i32 = 8;
 
+        // An empty pathname names no file.
+        if path.to_bytes().is_empty() {
+            return Err(Errno::ENOENT);
+        }
+
         let mut path = self
             .resolve_relative_path(Path::new(UnixStr::from_bytes(path.to_bytes())))
             .into_owned();
